@@ -1,4 +1,4 @@
-import Proofs.Tie.ReadOnly
+import Proofs.Tie.Globals
 namespace Mq.Tie
 open Mq
 
